@@ -119,6 +119,17 @@ def do_check(ctx, plug):
     for blk in r["assumptions"]:
       axioms_seen.update(blk)
 
+  # 3b. thorough tier: independent re-check with coqchk of the property files and their whole dependency cone
+  chk_axioms = None
+  if ctx.tier == "thorough" and prop_files and not any(b["kind"] == "proof" for b in broken):
+    obligations += 1
+    okc, chk_axioms, summ = C.coqchk(prop_files)
+    bad_chk = [a for a in chk_axioms if a.split(".")[-1] not in C.STDLIB_AXIOMS and a not in C.STDLIB_AXIOMS]
+    if okc and not bad_chk:
+      discharged += 1
+    else:
+      broken.append(dict(kind="proof", what="coqchk re-check failed or reported non-standard axioms / unsafe features", detail=dict(axioms=bad_chk, tail=summ[-600:])))
+
   # 4. tie K: correspondence and Coq-side postcondition evaluation
   corr = dict(evaluations=0, distinct_nontrivial=0, rule="", samples=[], disagreements=[])
   if hasattr(plug, "correspondence"):
@@ -174,6 +185,8 @@ def do_check(ctx, plug):
 
   trusted = ["Coq 8.16.1 kernel; vm_compute in case files; no native_compute"]
   trusted.append("Print Assumptions over %d theorems: %s" % (len(theorems), ", ".join(sorted(axioms_seen)) or "Closed under the global context"))
+  if chk_axioms is not None:
+    trusted.append("coqchk -o over the whole dependency cone (all loaded libraries): axioms " + (", ".join(chk_axioms) or "none") + "; no type-in-type, unsafe fixpoints or assumed positivity")
   trusted += list(getattr(plug, "TRUSTED", []))
   cov = dict(
     obligations=obligations, discharged=discharged, checker_cmd=checker_cmd, trusted_base=trusted,
